@@ -48,6 +48,7 @@ def sites_on(b, pats, field, lift=True):
 def run(ctx):
     shared.no_mutual_deferral(ctx, '9')
     shared.tree_lock_decision(ctx, '10')   # a worker that blocks on a client's tree lock, taken after its check, stops the pipeline        # ... and shutdown terminates: no pair of commits that defer each other forever
+    shared.client_callbacks_run_without_column_locks(ctx, '11')     # F81: a callback that reads the column it iterates
     shared.more_work_signal(ctx, '8')      # every accepted commit is written to the log: the log worker keeps going while a commit is (re)queued
     F = ctx.F
     # ---------------------------------------------------------------- 1. wake-up pairing
